@@ -41,6 +41,8 @@ func rateScenario(c *Ctx, in map[string]string) {
 			s.Steps = append(s.Steps, Step{Op: "sleep"}, Step{Op: "sleep"})
 		case "longidle": // a quiet connection earns no credit beyond the burst allowance
 			s.Steps = append(s.Steps, Step{Op: "sleep", Arg: "2500"})
+		case "veryidle": // longer than the 8-second allowance itself
+			s.Steps = append(s.Steps, Step{Op: "sleep", Arg: "8600"})
 		}
 	}
 	res := c.RunSession(s)
@@ -179,6 +181,7 @@ func runC16Timing(c *Ctx) {
 	if c.Tier == "thorough" {
 		scen = append(scen,
 			map[string]string{"kinds": "who,who,who,who,who,who,who,who,who,who,who"},
+			map[string]string{"kinds": "veryidle,who,who,who,who,who,who,who,who,who,who,who"},
 			map[string]string{"kinds": "msg,msg,msg,msg,msg,msg,msg,idle,msg,msg,ping,msg,msg"},
 			map[string]string{"kinds": "join,notice,join,notice,join,notice,join,notice,join,pong,notice,join"})
 	}
